@@ -26,8 +26,9 @@ def sh(cmd, cwd=None, timeout=3600, env=None):
     return p.returncode, p.stdout + p.stderr
 
 
-def tests(wt):
-    rc, out = sh("cargo test --offline 2>&1 | grep -E '^test result|FAILED|failed' | head -20", cwd=wt)
+def tests(wt, flt=None):
+    cmd = "cargo test --offline" if flt is None else "cargo test --offline %s -- --test-threads=1" % flt
+    rc, out = sh(cmd + " 2>&1 | grep -E '^test result|FAILED|failed' | head -20", cwd=wt)
     m = re.search(r"test result: (\w+)\. (\d+) passed; (\d+) failed", out)
     return (m.group(1), int(m.group(2)), int(m.group(3))) if m else ("?", 0, -1), out
 
@@ -50,10 +51,13 @@ def main():
             if os.path.exists(demo_patch):
                 rc, o = sh("git apply %s" % demo_patch, cwd=wt)
                 assert rc == 0, "demo patch does not apply: " + o
-                res["demo_with_change"], o1 = tests(wt)
+                mods = re.findall(r"^\+\s*(?:pub )?mod (\w+)", open(demo_patch).read(), re.M)
+                flt = mods[0] if mods else None
+                res["demo_filter"] = flt
+                res["demo_with_change"], o1 = tests(wt, flt)
                 rc, o = sh("git apply -R %s" % patch, cwd=wt)
                 assert rc == 0, "cannot revert patch under demo: " + o
-                res["demo_without_change"], o2 = tests(wt)
+                res["demo_without_change"], o2 = tests(wt, flt)
             else:
                 res["demo"] = "script demo: confirm by hand"
         finally:
